@@ -272,6 +272,8 @@ _ADD_LEVEL8 = {
            "materialised (also run for C08, C18).",
     "C11": " Added: reset() rewinds every sub-matcher the cursor moves advance; every write of MultiMatcher's segment cursor is followed by "
            "_next_matcher() before the method returns (also run for C01, C06).",
+    "C15": " Added: only a disjunction drops a clause that matches nothing (every NullQuery filter of whoosh.query outside CompoundQuery.normalize "
+           "lies in a class whose matcher is a union).",
     "C13": " Added: the decimal scaling of prepare_number is undone arithmetically (division by the same power of ten), not by cutting the "
            "digit string (also run for C08).",
 }
@@ -286,7 +288,7 @@ for _k in list(LEVEL):
                              "document count is never a bound or table size for document numbers; G9 file/struct bytes are never concatenated with a "
                              "str literal; G10 a get-or-create tests the container it fills; G11 strip() is not used to cut a literal affix; G12 a pure "
                              "delegation returns what it delegates; G13 a number is compared strictly with the next entry of an offsets table "
-                             "(segment ranges are half-open).")
+                             "(segment ranges are half-open); G14 a memo filled inside a loop is keyed by everything that varies in what it remembers.")
 for _k in list(NOTE):
     NOTE[_k] = NOTE[_k] + (" All rules are invariant under the behaviour-preserving whole-tree transformations of tools/robust.py "
                            "and silent on the 395 confirmed refactorings under benign/ (four more under benign_open/ -- C097, C09A, C10A, C20A -- are recorded open false alarms) (thorough tier). Independent seeding rounds: an unseen "
